@@ -45,11 +45,31 @@ def asSet (s : MState) (key : Bytes) : Option (AList Unit) :=
 def asZSet (s : MState) (key : Bytes) : Option ZSet :=
   match valOf s key with | some (.zset v) => some v | _ => none
 
+/-- mutate the value object of `key` in place. With the in-memory backend the same object may be
+    referenced by backend entries and (after a reopen) by other index records: they all see it. -/
 def setVal (s : MState) (key : Bytes) (v : Val) : MState :=
-  modMeta s key fun m => { m with value := some v }
+  match getMeta s key with
+  | none => s
+  | some m =>
+    let s := putMeta s key { m with value := some v }
+    if s.pebble ∨ m.oid = 0 then s else
+    { s with
+      index := s.index.map fun (k, m') =>
+        if m'.oid = m.oid ∧ m'.value.isSome then (k, { m' with value := some v }) else (k, m'),
+      disk := s.disk.map fun (k, e) => if e.oid = m.oid then (k, { e with val := v }) else (k, e) }
+
+/-- mutate `m.key.Expiration`; the in-memory backend's entries hold the same *ds.Key -/
 def setExp (s : MState) (key : Bytes) (e : Int) : MState :=
-  modMeta s key fun m => { m with exp := e }
+  match getMeta s key with
+  | none => s
+  | some m =>
+    let s := putMeta s key { m with exp := e }
+    if s.pebble ∨ m.kid = 0 then s else
+    { s with disk := s.disk.map fun (k, d) => if d.kid = m.kid then (k, { d with exp := e }) else (k, d) }
 def expOf (s : MState) (key : Bytes) : Int := ((getMeta s key).map (·.exp)).getD 0
+
+/-- `tx.commit()`: the call's locks are released (between the separate transactions of one command) -/
+def commit (s : MState) : MState := { s with held := [] }
 
 def strVal : DsStr.S → Val
   | some v => .str v
@@ -160,9 +180,13 @@ def ttl (s : MState) (now : Int) (key : Bytes) : R :=
   if !ok then (s, .int (-2)) else
   let e := expOf s key
   if e = 0 then (s, .int (-1)) else
-  let d := e - now                 -- ms, > 0 here
-  let secs := (d + 500) / 1000
-  (s, .int (secs * 1000000000))
+  -- time.Until saturates; Duration.Round(time.Second) rounds half up and saturates
+  let dns := e * 1000000 - now * 1000000
+  let d := if dns > int64Max then int64Max else dns       -- > 0 here
+  let r := d % 1000000000
+  if r + r < 1000000000 then (s, .int (d - r))
+  else if d + 1000000000 - r > int64Max then (s, .int int64Max)
+  else (s, .int (d + 1000000000 - r))
 
 def pttl (s : MState) (now : Int) (key : Bytes) : R :=
   let (s, ok) := readKey s now key
@@ -467,7 +491,7 @@ def mset (s : MState) (now : Int) (pairs : List Bytes) : R :=
     | k :: v :: rest, s =>
       (match set s now k v false with
        | (s, .panic) => (s, .panic)
-       | (s, _) => go rest s)
+       | (s, _) => go rest (commit s))
     | _, s => (s, .unit)
   go pairs s
 
@@ -773,8 +797,8 @@ def sstore (op : MState → Int → List Bytes → R) (s : MState) (now : Int) (
   if keys.isEmpty then (s, .int 0) else
   match op s now keys with
   | (s, .slist ms) =>
-    let (s, _) := del s now [dst]
-    sadd s now dst ms
+    let (s, _) := del (commit s) now [dst]
+    sadd (commit s) now dst ms
   | (s, o) => (s, o)
 
 def srem (s : MState) (now : Int) (key : Bytes) (members : List Bytes) : R :=
